@@ -3,6 +3,7 @@
    proofs/PublisherProofs.v (the library's stream sources stop producing: C06_cancel_* are restated here).
    Model: model/Endpoint.v, model/Publisher.v. *)
 From Coq Require Import Arith NArith List Bool Init.Byte.
+From RSV Require Import model.Publisher proofs.PublisherProofs.
 From RSV Require Import gen.GenConst lib.Bytes model.Frame model.Fragmenter model.StreamIds model.Endpoint
      proofs.EndpointProofs proofs.EndpointSignals.
 Import ListNotations.
@@ -48,6 +49,22 @@ Theorem C09_responder_dropped e oid o u : o_kind o = KRRResp ->
   gone e' (o_sid o) /\ raised = false /\ effs = (match o_fut o with FPending => [XAppFutCancel oid] | _ => [] end).
 Proof. exact (cancel_rr_responder e oid o u). Qed.
 Print Assumptions C09_responder_dropped.
+
+(* production stops: once the library's stream source (StreamFromGenerator, StreamFromAsyncGenerator, both
+   BackPressurePublishers; model/Publisher.v, tied to the code by the C06 and C09 correspondences) has been cancelled —
+   at ANY moment, also before its feeder task ever ran — under every further schedule of requests and task steps
+   nothing is handed to the subscriber and the source is not pulled again *)
+Theorem C09_source_cancel_silences : forall ls s, Publisher.cancelled s = true ->
+  Publisher.delivered (fold_left pstep ls s) = Publisher.delivered s /\ Publisher.cancelled (fold_left pstep ls s) = true.
+Proof. exact cancel_silences. Qed.
+Print Assumptions C09_source_cancel_silences.
+Theorem C09_source_cancel_stops_production : forall ls s, Publisher.cancelled s = true ->
+  Publisher.remaining (fold_left pstep ls s) = Publisher.remaining s /\ Publisher.outq (fold_left pstep ls s) = Publisher.outq s.
+Proof. exact cancel_stops_production. Qed.
+Print Assumptions C09_source_cancel_stops_production.
+Theorem C09_source_cancel_takes_effect : forall s, Publisher.cancelled (pstep s PCancel) = true.
+Proof. exact cancel_is_cancelled. Qed.
+Print Assumptions C09_source_cancel_takes_effect.
 
 (* isolation: a local cancel, and a CANCEL frame from the peer, touch only their own stream *)
 Theorem C09_local_cancel_isolated u e oid o k : nth_error (objs e) oid = Some o -> k <> o_sid o ->
